@@ -47,6 +47,7 @@ type Model struct {
 	nilable *nilableInfo
 	nilRet  map[*ssa.Function]string
 	effects *effectAnalysis
+	idxSum  map[*ssa.Function]int
 	invDone bool
 	fwTrans map[*ssa.Function]map[fieldID]bool
 }
